@@ -322,8 +322,10 @@ pub fn run_scenario(p: &Params) -> Outcome {
         let _ = dtx.send((r, snapshot));
     });
     set_affinity(&orig);
-    let watchdog = if cfg!(miri) { Duration::from_secs(3600) } else { Duration::from_secs(60) };
-    match drx.recv_timeout(watchdog) {
+    // Under Miri there is no watchdog: an untimed wait lets the interpreter report
+    // "the evaluated program deadlocked" when the collector blocks forever.
+    let received = if cfg!(miri) { drx.recv().map_err(|_| ()) } else { drx.recv_timeout(Duration::from_secs(60)).map_err(|_| ()) };
+    match received {
         Ok((r, (t_ret, dropped, in_dec, built))) => {
             let _ = runner.join();
             match r {
@@ -739,6 +741,9 @@ fn base_script(rng: &mut Rng, k: usize) -> Script {
     }
 }
 
+/// set once a run did not return: the leaked threads make further scenarios in this process meaningless
+static HUNG: std::sync::atomic::AtomicBool = std::sync::atomic::AtomicBool::new(false);
+
 fn judge(l: &mut Local, p: &Params, o: &Outcome, expect: &str) {
     l.eval();
     let pj = || params_json(p).set("produced_frames", o.log.len()).set("reports", o.reports.len()).set("wall_ms", o.wall_ms).set("workers_seen", o.workers_seen);
@@ -748,6 +753,7 @@ fn judge(l: &mut Local, p: &Params, o: &Outcome, expect: &str) {
             format!("BerTest::run did not return ({}): the run hangs", p.kind),
             pj().set("decoders_built", o.built).set("note", "watchdog 60 s; no result was delivered; all worker threads had finished or panicked"),
         );
+        HUNG.store(true, Ordering::SeqCst);
         return;
     }
     match expect {
@@ -822,6 +828,9 @@ pub fn run(run: &mut Run) {
     let miri = cfg!(miri);
     let n = if miri { 3 } else { run.tier.n(240, 6000) };
     run.sub_seq("normal-runs", n, move |l, idx, rng| {
+        if HUNG.load(Ordering::SeqCst) {
+            return;
+        }
         let h = small_h(rng);
         let k = h.cols - h.rows;
         let workers = if cfg!(miri) { 2 } else { 1 + (idx as usize % 16) };
@@ -857,6 +866,10 @@ pub fn run(run: &mut Run) {
     });
     let nf = if miri { 2 } else { run.tier.n(48, 800) };
     run.sub_seq("fault-injection", nf, move |l, idx, rng| {
+        if HUNG.load(Ordering::SeqCst) {
+            l.count("scenarios_skipped_after_a_hang");
+            return;
+        }
         let h = small_h(rng);
         let k = h.cols - h.rows;
         let workers = if cfg!(miri) { 2 } else { 1 + rng.below(16) };
